@@ -86,6 +86,21 @@ def run(prog, rep, tier='quick'):
                             key = ('axis', cls.qname, cplx, sides)
                             check_sink(rep, 'axis-units', cls.qname, '%s,%s' % ('complex' if cplx else 'real', sides),
                                        'frequencies()', fr, {'hz': F(1)}, loc(fm.mod, fm.node))
+    # the functional periodogram applies the factor itself when asked (used by pdaniell and FourierSpectrum.periodogram)
+    fsp = prog.func('periodogram', 'speriodogram')
+    for scale in (False, True):
+        for cplx in (False, True):
+            for parity in ('even', 'odd'):
+                label = 'scale_by_freq=%s,%s,NFFT %s' % (scale, 'complex' if cplx else 'real', parity)
+                v, itp = C.run_function(prog, 'periodogram', 'speriodogram', [C.data(cplx)],
+                                        {'NFFT': C.nfft(parity), 'sampling': C.sampling(), 'scale_by_freq': Const(scale),
+                                         'detrend': Const(False), 'window': StrV('window')})
+                nctx += 1
+                if blocked(rep, 'scale-once', fsp.qname, label, itp):
+                    continue
+                report_conflicts(rep, 'scale-once', itp, ('nfft', 'hz'), 'speriodogram,' + label, seen)
+                check_sink(rep, 'scale-once', fsp.qname, label, 'psd', v,
+                           {'nfft': F(1 if scale else 0), 'hz': F(-1 if scale else 0)}, loc(fsp.mod, fsp.node))
     # arma2psd branches
     f = prog.func('arma', 'arma2psd')
     rho = Num({**zero_deg(), 's': F(2)}, (), False)
